@@ -18,6 +18,7 @@ import (
 type Harness struct {
 	Props    []string
 	TProps   []string // properties this harness serves in the thorough tier only
+	TOnly    []string // if set: thorough BOUNDS apply only when checking one of these properties (elsewhere the quick bounds run)
 	Pkg      string // directory relative to the repo root, e.g. internal/queue
 	Fn       string
 	Tier     string // quick: runs in both tiers; thorough: thorough tier only
@@ -59,6 +60,8 @@ func scanHarnesses() ([]Harness, error) {
 					h.TProps = strings.Split(v, ",")
 				case "tier":
 					h.Tier = v
+				case "tonly":
+					h.TOnly = strings.Split(v, ",")
 				case "native":
 					h.Native = v == "yes" || v == "true"
 				case "shards":
